@@ -90,6 +90,8 @@ def enforcement(res: Result, req: dict, identical: set):
                              ('schema_above_max', math.nextafter(float(hi), math.inf))):
                 jobs.append(dict(j, label=label, text=f'{x!r} {u}', v=rat(x)))
             dflt = sc.get('default')
+            if isinstance(dflt, (int, float)) and not isinstance(dflt, bool) and float(lo) <= float(dflt) <= float(hi):
+                jobs.append(dict(j, label='schema_default', text=f'{float(dflt)!r} {u}', v=rat(float(dflt))))
             for label, x, text in (('schema_minus_one', -1.0, '-1'), ('schema_zero', 0.0, '0')):      # bare, the way a sentinel would be written
                 if x < float(lo) and dflt != x and j['p'].get('cur') != rat(x) and j['p'].get('def') != rat(x):
                     jobs.append(dict(j, label=label, text=text, v=rat(x)))
